@@ -248,6 +248,16 @@ def zoo_extras(sim) -> List[str]:
                 node.apply_timestep(t)
         except Exception as e:
             notes.append(f"zoo: node type {disc} not built: {type(e).__name__}: {str(e)[:80]}")
+    # a node whose power transitions take NO time (start_up_duration 0 is legal and used by the repository's own fixtures):
+    # zero-duration fast paths in handlers rely on the permission rule having checked the state
+    try:
+        from primaite.simulator.network.hardware.nodes.host.computer import Computer
+        fast = Computer.from_config(config={"type": "computer", "hostname": "zoo_fastboot", "ip_address": "192.168.250.10",
+                                            "subnet_mask": "255.255.255.0", "start_up_duration": 0, "shut_down_duration": 2})
+        fast.power_on()
+        sim.network.add_node(fast)
+    except Exception as e:
+        notes.append(f"zoo: fast-boot computer not built: {type(e).__name__}: {str(e)[:80]}")
     host = next((n for n in sim.network.nodes.values() if type(n).__name__ == "Server"), None)
     if host is not None:
         for name, cls in sorted({**Application._registry, **Service._registry}.items()):
@@ -277,6 +287,10 @@ def do(sim, ops: List[Any], req: List[Any]) -> str:
         st = "raised " + type(e).__name__
     ops.append(list(req))
     return st
+
+
+def _fastboot(node) -> bool:
+    return getattr(node.config, "start_up_duration", None) == 0
 
 
 def falsifiers(sim, node, rng: Rng, per_class_seen: set, clock: List[int]):
@@ -357,7 +371,7 @@ def falsifiers(sim, node, rng: Rng, per_class_seen: set, clock: List[int]):
             yield ("folder:deleted", "fileSystem", fs, list(ops))
             do(sim, ops, b + ["restore", "folder", "verif_dir"])
     # ---- power (last: everything above needs the node ON)
-    key = ("node", type(node).__name__)
+    key = ("node", type(node).__name__, _fastboot(node))
     if key in per_class_seen:
         return
     per_class_seen.add(key)
@@ -463,7 +477,7 @@ def sweep(ctx: Ctx, label: str, sim, registry, contract: Contract, replay_base: 
     contract.fill(Roots(sim).keys_seen())
     live_left = [live_cap]
     for node in list(sim.network.nodes.values()):
-        cls = type(node).__name__
+        cls = type(node).__name__ + ("/start_up_duration=0" if _fastboot(node) else "")
         if done_node_classes.get(cls, 0) >= max_nodes_per_class:
             continue
         done_node_classes[cls] = done_node_classes.get(cls, 0) + 1
